@@ -146,6 +146,10 @@ def perturbations(region, prng):
                 # the same quantity in another unit AND changed by 1e-7 relative (far above conversion rounding, far below 1e-5)
                 other = {u.deg: u.arcmin, u.arcmin: u.arcsec, u.arcsec: u.deg, u.rad: u.deg}.get(v.unit, u.deg)
                 yield name + ' other-unit+1e-7', rebuild(**{name: u.Quantity(v.to_value(other) * (1 + 1e-7), other)})
+        elif isinstance(v, np.floating):
+            yield name + ' 1ulp', rebuild(**{name: type(v)(np.nextafter(v, type(v)(np.inf)))})       # 1 ulp of its own type
+        elif isinstance(v, (int, np.integer)):
+            yield name + ' +1', rebuild(**{name: v + 1})
         else:
             yield name + ' 1ulp', rebuild(**{name: float(np.nextafter(float(v), np.inf))})
     # meta / visual: every key changed, one key removed, one key added
